@@ -33,6 +33,7 @@ def main():
     assert rc == 0, out
     log = {}
     ok = False
+    rediff = None
     try:
         demos = demo.split(",")
         dsts = demo_dst.split(",")
@@ -46,8 +47,15 @@ def main():
         for t in dsts:
             os.remove(os.path.join(wt, t))
         rc, out = sh(["git", "apply", os.path.join(os.path.abspath(src), "patch.diff")], wt)
+        rediff = None
         if rc != 0:
-            print("patch does not apply:", out); return 1
+            # the tree moved on since the change was written: try a three-way application and keep the re-made diff
+            rc, out = sh(["git", "apply", "--3way", os.path.join(os.path.abspath(src), "patch.diff")], wt)
+            if rc != 0:
+                print("patch does not apply:", out); return 1
+            sh(["git", "reset", "-q"], wt)
+            rc, rediff = sh(["git", "diff"], wt)
+            log["patch"] = "re-made against the current tree with git apply --3way"
         rc, out = sh(["git", "diff", "--name-only"], wt)
         changed = [l for l in out.split() if l.endswith(".go")]
         if any(c.endswith("_test.go") for c in changed):
@@ -93,7 +101,10 @@ def main():
     if ok:
         dst = os.path.join(VERIF, "seeded", sid)
         os.makedirs(dst, exist_ok=True)
-        shutil.copy(os.path.join(src, "patch.diff"), os.path.join(dst, "patch.diff"))
+        if rediff:
+            open(os.path.join(dst, "patch.diff"), "w").write(rediff)
+        else:
+            shutil.copy(os.path.join(src, "patch.diff"), os.path.join(dst, "patch.diff"))
         for d in demo.split(","):
             shutil.copy(os.path.join(src, d), os.path.join(dst, os.path.basename(d)))
         if os.path.exists(os.path.join(src, "notes.md")):
